@@ -288,7 +288,7 @@ def run(ctx):
         reuse.scenario = name
         leak = failed_pair_leak(env)
         epr_found = []
-        plans = [REPEATER, dict(REPEATER, pb=True)] + [random_epr_plan(rng, t) for _ in range(120 if t else 24)]
+        plans = [REPEATER, dict(REPEATER, pb=True)] + [random_epr_plan(rng, t) for _ in range(400 if t else 24)]
         for plan in plans:
             probs, obs = run_epr_plan(env, plan)
             ctx.count("epr_plans")
